@@ -151,7 +151,7 @@ func c17Run(in c17In) c17Out {
 		w.Mu.Lock()
 		pass.Before = map[string]vk.Node{}
 		for h, n := range w.Nodes {
-			pass.Before[h] = *n
+			pass.Before[h] = n.Snapshot()
 		}
 		w.Mu.Unlock()
 		pass.T = time.Now().UnixNano() - vEpoch
